@@ -545,7 +545,7 @@ Proof.
   intros h ss Mh Hwf c k r f1 Ht Hr Hk Hloop f Hf.
   cbn [wf] in Hwf. apply andb_prop in Hwf as [Hwf Hws]. apply andb3 in Hwf as (Hwh & Hnp & Hne).
   apply negb_true_iff in Hnp. destruct ss as [|s ss]; [discriminate|].
-  cbn [tight] in Ht. unfold need in Hf. rewrite pp_pathexpr in *.
+  cbn [tight] in Ht. unfold need in Hf. rewrite (pp_pathexpr h (s :: ss) Hwh) in *.
   destruct (steps_follow (s :: ss) k Hk) as (F1 & F2 & F3).
   assert (Hl : forall f, f1 <= f -> parse_loop f c (add_steps h (s :: ss)) k = Some r)
     by (intros f' Hf'; rewrite add_steps_head by assumption; apply Hloop; assumption).
